@@ -5,7 +5,7 @@ import JinjaV.Model.Scope
   `nodes.<Node>.fields` order, expressions as generic trees); expressions are flattened here to the `Name(ctx=load)`
   nodes in visiting order.
 
-    (scope-analyze (globals "g" …) (stmt …))  →  (ok (sites n…) (undeclared n…) (root n…) (referenced r…) (runs (n…) (n…) (n…)))
+    (scope-analyze (globals "g" …) (stmt …))  →  (ok (sites n…) (undeclared n…) (root n…) (referenced r…) (refok b) (runs (n…) (n…) (n…)))
       r ::= (some "name") | none
 -/
 namespace JinjaV.Wire.Scope
@@ -89,6 +89,7 @@ def handle : List Sx → Sx
         tagged "undeclared" (strs (undeclared gs t)),
         tagged "root" (strs (resolves (rootFrame t)).eraseDups),
         tagged "referenced" ((referenced t).map encRef),
+        tagged "refok" [Sx.ofBool (refOkTemplate t)],
         -- three sample runs (the theorem quantifies over all oracles; these only show the executor is not degenerate)
         tagged "runs" [.list (strs (runtimeLookups (fun _ => 0) t).eraseDups),
                        .list (strs (runtimeLookups (fun _ => 1) t).eraseDups),
